@@ -68,6 +68,7 @@ type EntitySpec struct {
 
 	Format string `json:"format,omitempty"` // yaml (default) | json
 	Style  int    `json:"style,omitempty"`  // rendering variation: key order, comments, indent
+	Bulk   int    `json:"bulk,omitempty"`   // KiB of meaning-free padding (YAML comment block / JSON white space) in front of one top-level key
 }
 
 func (e *EntitySpec) Clone() *EntitySpec {
@@ -385,6 +386,45 @@ func (c *commenter) maybe(bb *bytes.Buffer, cur string) {
 	}
 }
 
+// renderBulk: the document with bulk KiB of padding that means nothing - a comment block in YAML,
+// white space in JSON - in front of one top-level key (or after the last); which one follows from
+// style and bulk. A large file with small content: whatever depends on the file's size rather than
+// on its content has something to show.
+func renderBulk(top OM, format string, style, bulk int) []byte {
+	pos := (style*31 + bulk) % (len(top) + 1)
+	var bb bytes.Buffer
+	if format == "json" {
+		pad := strings.Repeat(strings.Repeat(" ", 63)+"\n", bulk*16)
+		bb.WriteString("{")
+		for i, kv := range top {
+			if i > 0 {
+				bb.WriteString(",")
+			}
+			if i == pos {
+				bb.WriteString(pad)
+			}
+			bb.WriteString(jsonStr(kv.K) + ": ")
+			emitJSON(&bb, kv.V, "", "")
+		}
+		if pos == len(top) {
+			bb.WriteString(pad)
+		}
+		bb.WriteString("}\n")
+		return bb.Bytes()
+	}
+	pad := strings.Repeat("# "+strings.Repeat("-", 61)+"\n", bulk*16)
+	for i, kv := range top {
+		if i == pos {
+			bb.WriteString(pad)
+		}
+		emitYAML(&bb, OM{kv}, "  ", "", nil)
+	}
+	if pos == len(top) {
+		bb.WriteString(pad)
+	}
+	return bb.Bytes()
+}
+
 func renderDoc(top OM, format string, style int) []byte {
 	r := NewRng(uint64(style) * 7919)
 	if style != 0 {
@@ -525,6 +565,18 @@ func (e *EntitySpec) Render() []byte {
 	f := e.Format
 	if f == "" {
 		f = "yaml"
+	}
+	if e.Bulk > 0 {
+		top := e.Doc()
+		if e.Style != 0 {
+			p := NewRng(uint64(e.Style) * 7919).Perm(len(top))
+			n := make(OM, len(top))
+			for i, j := range p {
+				n[i] = top[j]
+			}
+			top = n
+		}
+		return renderBulk(top, f, e.Style, e.Bulk)
 	}
 	return renderDoc(e.Doc(), f, e.Style)
 }
